@@ -99,7 +99,17 @@ def _observe_rt(p):
 
 def rt_term(p, obs):
     enc, tot, dec, re, _n = obs
-    return '(mkrt %s %s %d %s %s)' % (pm.c_pdu(p), pm.c_obytes(enc), tot, pm.c_result_pdu(dec), pm.c_obytes(re))
+    pm.PATS[:] = []
+    if p[0] == 'PData':
+        seen = set()
+        for _c, d in p[2]:
+            if isinstance(d, tuple) and d[3] >= 2048 and (d[2], d[3]) not in seen:
+                seen.add((d[2], d[3]))
+                pm.PATS.append((d[2], d[3], common.pat(d[2], d[3])))
+    try:
+        return '(mkrt %s %s %d %s %s)' % (pm.c_pdu(p), pm.c_obytes(enc), tot, pm.c_result_pdu(dec), pm.c_obytes(re))
+    finally:
+        pm.PATS[:] = []
 
 
 def observe_dec(t, raw):
@@ -180,7 +190,8 @@ def gen_structured(tier, rng):
     # P-DATA: payload sizes around the boundaries, several PDVs
     for n in [0, 1, 2, 255, 256, 65529, 65530, 65531, 65535, 65536, 65537, 70000]:
         out.append(('pdata', ('PData', 0, [(1, ('pat', b'\x02', 7 + n, n))])))
-    for sizes in [[0, 0], [1, 0, 2], [5, 5, 5, 5, 5], [300, 1], [70000, 3, 66000]]:
+    # (the last two: P-DATA-TF PDUs beyond 1 MiB, as a peer without limit may be sent, with one and with several PDVs)
+    for sizes in [[0, 0], [1, 0, 2], [5, 5, 5, 5, 5], [300, 1], [70000, 3, 66000], [600000, 2, 500000]] + ([[1100000]] if tier != 'quick' else []):
         out.append(('pdata', ('PData', pm.g_res(rng), [(pm.g_int(rng, 8), ('pat', b'', 11 + s, s)) for s in sizes])))
     for _ in range(20 if tier == 'quick' else 200):
         out.append(('pdata', pm.g_pdata(rng)))
